@@ -64,7 +64,9 @@ def fee_worlds(R, env, prog, sites, RULE):
                     opnd = _rt2w(prog, v[3][0], 2, None, w.assumptions)
                     if const_int(opnd) == 0:
                         v = None if want else v  # += 0 changes nothing
-                    elif opnd is not v[3][0]:
+                    elif opnd is not v[3][0] and not is_fee(prog, v[3][0]):
+                        # (only where the operand as written is not recognised: a fee computed from a helper's result is
+                        # the fee as it stands, inlining the helper would only hide the reward behind its loop)
                         v = (v[0], v[1], v[2], (opnd,) + tuple(v[3][1:])) + tuple(v[4:])
                 if v is not None:
                     fee_writes.append((op, v))
